@@ -194,9 +194,14 @@ class SyncedList(SyncedCollection, MutableSequence):
                 with self._load_and_save:
                     self._update(data)
                 return
-            self._update(data)
-            with self._thread_lock:
+            # Hold the locks for the whole operation (not only the save) and
+            # take them in the same order as every other writer.
+            self._load_and_save._acquire_locks()
+            try:
+                self._update(data)
                 self._save()
+            finally:
+                self._load_and_save._release_locks()
         else:
             raise ValueError(
                 "Unsupported type: {}. The data must be a non-string sequence or None.".format(
@@ -264,9 +269,14 @@ class SyncedList(SyncedCollection, MutableSequence):
             with self._load_and_save:
                 self._data.clear()
             return
-        self._data = []
-        with self._thread_lock:
+        # Hold the locks for the whole operation (not only the save) and take
+        # them in the same order as every other writer.
+        self._load_and_save._acquire_locks()
+        try:
+            self._data = []
             self._save()
+        finally:
+            self._load_and_save._release_locks()
 
     def __lt__(self, other):
         if isinstance(other, type(self)):
